@@ -102,3 +102,29 @@ package schedule
 //@ modifies nothing
 //@ props C01 C02
 //@ ensures [exact] result == max(0, s.n - s.i)
+
+// ---------------------------------------------------------------- step = one const level per rate, in order
+
+//@ func NewStep
+//@ props C01
+//@ requires from >= 0.0 && to >= 0.0 && step >= 1 && duration >= 1000000
+//@ loop 0 invariant [level-rates] i == from + real(len(nexts))*real(step) && from == from0 && to == to0 && step == step0 && duration == duration0
+//@ loop 0 invariant [levels-so-far-fit] imp(len(nexts) > 0, from + real(len(nexts)-1)*real(step) <= to)
+//@ at call NewConst#0 assert [flat-profile-is-one-level] arg(ops) == from0 && arg(duration) == duration0
+//@ at call NewConst#1 assert [level-k-has-rate-from-plus-k-steps] arg(ops) == from0 + real(len(nexts))*real(step0) && arg(duration) == duration0
+//@ at call NewCompositeConf assert [all-levels-in-order] arg(conf).Nested == nexts
+//@ at call NewCompositeConf assert [one-level-per-rate-up-to-to] imp(from0 < to0, len(nexts) >= 1 && from0 + real(len(nexts)-1)*real(step0) <= to0 && to0 < from0 + real(len(nexts))*real(step0))
+
+// ---------------------------------------------------------------- instance_step = once(from), then (pause, once(step)) per step
+
+//@ func NewInstanceStep
+//@ props C12 C02
+//@ requires from >= 0 && to >= 0 && step >= 1 && stepDuration >= 1000000
+//@ loop 0 invariant from == from0 && to == to0 && step == step0 && stepDuration == stepDuration0
+//@ loop 0 invariant [parts] len(nexts) >= 1 && (len(nexts)-1) % 2 == 0 && i == from + step + ((len(nexts)-1)/2)*step
+//@ loop 0 invariant [never-above-to] imp(len(nexts) > 1, from + ((len(nexts)-1)/2)*step <= to)
+//@ at call NewOnce#0 assert [initial-instances] arg(n) == from0
+//@ at call NewConst assert [pause-releases-nothing] arg(ops) == 0.0 && arg(duration) == stepDuration0
+//@ at call NewOnce#1 assert [step-instances] arg(n) == step0
+//@ at call NewCompositeConf assert [all-parts-in-order] arg(conf).Nested == nexts
+//@ at call NewCompositeConf assert [steps-up-to-to] imp(from0 <= to0, from0 + ((len(nexts)-1)/2)*step0 <= to0 && to0 < from0 + ((len(nexts)-1)/2 + 1)*step0)
